@@ -205,14 +205,24 @@ def report_violations(mod, prop, agg_viol, gen_case, known, max_reports=6):
             continue
         case = v.get("case") or gen_case(ref)
         small, reproduced = minimise(mod, prop, case, v, known)
-        if not reproduced:
-            # in-process re-execution did not reproduce: harness nondeterminism, not a verdict
-            unconfirmed += 1
-            lines.append("HARNESS-ERROR: violation class=%s at %s did not reproduce in-process" % (v["class"], ref))
-            continue
-        res = core.run_case_guarded(mod.execute, small, timeout_s=mod.RUN_TIMEOUT_S, hang_violation=getattr(mod, 'TIMEOUT_IS_VIOLATION', False))
-        res = _finish(res)
-        v2 = same_violation(res, v, prop, known)
+        res = v2 = None
+        if reproduced:
+            res = _finish(core.run_case_guarded(mod.execute, small, timeout_s=mod.RUN_TIMEOUT_S, hang_violation=getattr(mod, 'TIMEOUT_IS_VIOLATION', False)))
+            v2 = same_violation(res, v, prop, known)
+        if v2 is None:
+            # This process has executed other cases: if the code under test keeps state between calls, only a
+            # fresh interpreter is a faithful judge.  Two fresh interpreters must agree with each other.
+            try:
+                c1, c2 = child_exec(prop, case), child_exec(prop, case)
+            except core.HarnessError:
+                c1 = c2 = None
+            if c1 and c2 and c1["digest"] == c2["digest"] and same_violation(c1, v, prop, known) is not None:
+                small, res, v2 = case, c1, same_violation(c1, v, prop, known)
+                lines.append("note: class=%s reproduces only in a fresh interpreter (state kept between calls in this process?); replay is not minimised" % v["class"])
+            else:
+                unconfirmed += 1
+                lines.append("HARNESS-ERROR: violation class=%s at %s did not reproduce (in-process or in fresh interpreters)" % (v["class"], ref))
+                continue
         tag = "%s-%s" % (v["class"].replace("/", "_"), core.digest(small)[:8])
         path = core.write_replay(prop, small, v2, res["digest"], tag)
         # replay in a fresh interpreter must fail the same way with the same history
@@ -447,6 +457,8 @@ def run_check(mod, prop, seed, args, t0):
         core.write_evidence(prop, ev)
     print("%s: runs=%d ops=%d distinct_nontrivial=%d violations=%d known=%d timeouts=%d wall=%.1fs" % (
         prop, agg.runs, agg.ops, len(nontrivial), n_new, n_known, agg.timeouts, wall))
+    if n_new:
+        return core.EXIT_VIOLATION  # at least one violation was minimised and replayed identically in a fresh interpreter
     if harness_errors or unconfirmed or cross_lines:
         return core.EXIT_HARNESS
     if agg.timeouts:
